@@ -6,6 +6,8 @@ DOC = {
     'not_decided': ['equality of the observable state before/after (value-level)'],
 }
 
+WITNESSES = ['C05W1Fail', 'C05W1Twin', 'C05W2Fail', 'C05W2Twin']
+
 
 def rules(ctx):
     S.c05_r1_abort_path(ctx)
